@@ -36,6 +36,7 @@ func runC09(c *core.Ctx) core.Meta {
 	pc := NewPkgInfo(c, cpPkg)
 	checkNoCompactionWhileRanging(c, "R09.12", 6, pd, pr, pc)
 	checkCreatedOncePerBuild(c, "R09.14", pc, "NewCUResourcePool", "With a pool per dispatcher every CU looks empty to each of them: two kernels in flight on one GPU are given the same SIMD slots, the same VGPR / SGPR ranges and the same LDS offsets on the same CU, and resident work-groups exceed the unit.")
+	checkPerKernelFieldsStoredAlways(c, "R09.15")
 	{
 		st13 := c.Rule("R09.13", "the partition algorithm positions compute unit i's grid builder with Skip(i * share), where share comes from the filtered work-group count: GridBuilder.Skip therefore advances by accepted work-groups (it calls NextWG, which applies the filter), not by grid positions. An arithmetic Skip makes the partitions of a filtered launch (every member of a unified multi-GPU device but the first) overlap: some work-groups are mapped to several compute units and as many never run, with the dispatched count still right", 1)
 		checkSkipCountsAccepted(c, st13, "R09.13")
